@@ -171,6 +171,23 @@ def r_dim_guard(cx):
                   "%s: element %s is accessed without a dominating `index < dim()` test: tuples of lower dimension "
                   "panic instead of yielding NaN" % (name, mir.show(idx, maxd=2)), cx.where(t["span"]))
             j += 1
+        # the checked writer fills the whole tuple with NaN when its index is out of range: a default method that
+        # iterates by itself never provokes that - its own index stays below dim()
+        for bb, t in f.calls():
+            c = t.get("callee") or ""
+            if not c.endswith("::set_nth"):
+                continue
+            idx = f.arg_terms(bb)[1]
+            if idx[0] == "const" or idx == ("arg", 2) or mir.strip_refs(idx)[0] == "arg":
+                continue        # the caller's own index: out-of-range handling is the documented behaviour
+            n += 1
+            ok = _index_below_dim(f, bb, idx) or _ranges_below_dim(f, idx)
+            cx.ob("R-DIM-GUARD", "%s/write%d" % (name, j), ok,
+                  "%s: the index it iterates with stays below dim()" % name if ok else
+                  "%s writes element by element through set_nth with an index that is not bounded by dim(): a slice longer "
+                  "than the tuple makes set_nth fill the whole tuple with NaN instead of leaving the leading elements set"
+                  % name, cx.where(t["span"]))
+            j += 1
     cx.count("R-DIM-GUARD", "accesses", n)
 
 
@@ -389,3 +406,86 @@ def r_all_dims(cx):
                   "the default CoordinateTuple::%s does not range over all of 0..self.dim(): some dimension does not "
                   "take part in the element-wise operation" % meth, cx.where(f.term(lp.header)["span"]))
     cx.count("R-ALL-DIMS", "loops", n)
+
+
+# ---------------------------------------------------------------------------------------------------------------------
+# R-ADAPTER-FIXED (C19, C02): the fixed height / epoch of a 2D+ adapter is not state that writes can change
+
+@rule("R-ADAPTER-FIXED", ["C19", "C02"])
+def r_adapter_fixed(cx):
+    """`(T, f64)` and `(T, f64, f64)` present a lower-dimensional container as 3D / 4D by supplying one fixed height
+    (and epoch) for *all* its tuples. That value belongs to the container as a whole: no method of these impls that
+    takes `&mut self` assigns to `self.1` / `self.2` (only the inner container `self.0` is written) - otherwise writing
+    tuple i changes what is read back for every other tuple."""
+    n = 0
+    for name in sorted(cx.f.lib["fns"]):
+        if not (name.startswith("<(T, f64) as coordinate::set::CoordinateSet>::") or
+                name.startswith("<(T, f64, f64) as coordinate::set::CoordinateSet>::")):
+            continue
+        f = cx.f.fn(name)
+        if "&mut" not in str(f.local_ty(1)):
+            continue
+        n += 1
+        bad = []
+        for bb, i, s in f.all_stmts():
+            if s["k"] != "assign":
+                continue
+            pl = s["place"]
+            if pl["l"] == 1 and pl["p"]:
+                bad.append((bb, i, pl["p"]))
+        # writes through a reborrow of a fixed field: `let h = &mut self.1; *h = ..`
+        for bb, i, s in f.all_stmts():
+            if s["k"] == "assign" and s["rv"]["k"] == "ref" and s["rv"].get("mut") and s["rv"]["place"]["l"] == 1:
+                pj = s["rv"]["place"]["p"]
+                if _field_index(pj) not in (None, 0):
+                    bad.append((bb, i, pj))
+        bad = [b for b in bad if _field_index(b[2]) not in (None, 0)]
+        ok = not bad
+        cx.ob("R-ADAPTER-FIXED", name, ok,
+              "%s writes the inner container only" % name if ok else
+              "%s assigns to the adapter's own fixed value (field %s of self): after set_coord(i, ..) every other tuple of "
+              "the set reads back the height / epoch written last" % (name, _field_index(bad[0][2])), cx.where(f.d["span"]))
+    cx.count("R-ADAPTER-FIXED", "mutating_adapter_methods", n)
+
+
+def _field_index(projs):
+    """index of the first struct/tuple field projection after the deref of self"""
+    for p in projs:
+        if isinstance(p, dict) and "f" in p:
+            return p["f"]
+    return None
+
+
+@rule("R-STOMP-ALL", ["C12", "C10"])
+def r_stomp_all(cx):
+    """`CoordinateSet::stomp` is what a stack underflow (and other whole-set failures) uses to invalidate the operands:
+    it overwrites every element of every tuple - a full `set_coord(i, &Coor4D::nan())` for all i in 0..len() - not only
+    the first two or three elements (a finite time coordinate would survive)."""
+    name = "coordinate::set::CoordinateSet::stomp"
+    if not cx.f.has_fn(name):
+        cx.ob("R-STOMP-ALL", "stomp", False, "anchor-missing: %s" % name)
+        return
+    f = cx.f.fn(name)
+    writes = []
+    for bb, t in f.calls():
+        c = f.callee(t) or ""
+        tail = c.rsplit("::", 1)[-1]
+        if tail.startswith("set_") and "CoordinateSet" in c:
+            writes.append((bb, tail, f.arg_terms(bb)))
+    full = [w for w in writes if w[1] == "set_coord"]
+    partial = [w for w in writes if w[1] != "set_coord"]
+    nan_ok = bool(full)
+    for bb, tail, a in full:
+        hit = []
+        val = a[2] if len(a) > 2 else ("unknown",)
+        if val[0] == "refplace" and not val[3]:
+            val = f.local_value(val[2], f.end_point(bb))
+        mir.walk(val, lambda y: (hit.append(1) if y[0] == "call" and isinstance(y[1], str) and
+                                                                y[1].rsplit("::", 1)[-1] == "nan" else None) or True)
+        nan_ok = nan_ok and bool(hit) and f.innermost_loop(bb) is not None
+    ok = nan_ok and not partial
+    cx.ob("R-STOMP-ALL", "stomp", ok,
+          "stomp overwrites every tuple with Coor4D::nan() through set_coord" if ok else
+          "CoordinateSet::stomp does not overwrite whole tuples with NaN (%s): after a stack underflow some elements of "
+          "the operands stay finite" % (", ".join(w[1] for w in partial) or "no set_coord(i, nan) in a loop"), cx.where(f.d["span"]))
+    cx.count("R-STOMP-ALL", "stomp_writes", len(writes))
